@@ -14,6 +14,7 @@ from __future__ import annotations
 import sympy as sp
 
 from .common import *  # noqa
+from ..vg import strip_alloc
 from .boolib import *  # noqa
 from .grlib import pbc_args, no_wrap_possible
 from ..vg import Interp
@@ -203,6 +204,15 @@ def check_divcurl(run, pkg):
             run.ob("R-PBC", fq, f"{tag}:image", None, "divergence kernel recognised", show(inner)[:100], loc=loc)
             continue
         if pbc_args(R) is None:
+            from . import grlib
+            iv = grlib.find_inline_image(strip_alloc(R)) if has_pos(R) else ("unknown", "")
+            if iv[0] == "bad":
+                run.ob("R-PBC", fq, f"{tag}:image", False, "relative positions are minimum-image vectors (inline re-implementation decided against R - (mask (.) nearest(R H^-1)) H)", show(R)[:100],
+                       witness=iv[1], loc=loc, sound=True)
+                continue
+            if iv[0] == "ok":
+                run.ob("R-PBC", fq, f"{tag}:image", True, "relative positions are minimum-image vectors (inline re-implementation verified against the reference form)", show(R)[:100], loc=loc)
+                continue
             raw = has_pos(R) and no_wrap_possible(R)
             run.ob("R-PBC", fq, f"{tag}:image", False if raw else None, "relative positions are minimum-image vectors", show(R)[:100],
                    witness="neighbours across the periodic boundary give box-length r_ij: divergence and curl blow up at the faces" if raw else None, loc=loc, sound=True)
@@ -348,7 +358,20 @@ def check_split(run, pkg):
         oku = tri_lazy(lambda: (True if (U[0] == "bin") else None), lambda: (True if (U[1] == "/") else None), lambda: (True if (is_cols(U[2], "q", F0)) else None), lambda: eqv(col_bcast(U[3]), ("attr", ("sub", F0, C("q")), "values")), lambda: (True if (U[3] != col_bcast(U[3])) else None))
         if is_cols(U, "q", F0):
             oku = False            # the raw wave-vector columns themselves, never divided by |q|
-        run.ob("R-ALG", fq, "unit-q", oku, "u = (q0..q{d-1}) / |q| row by row, both from the transform's own table", show(U)[:110], witness=None if oku else "u is not a unit vector along q: L is not a projection, S != S_L + S_T", loc=loc, sound=True)
+        wit_u = "u is not a unit vector along q: L is not a projection, S != S_L + S_T"
+        if oku is None:
+            # definite: the direction is computed from the integer wave-vector argument alone - no box length, nothing of the
+            # transform's table of physical wave vectors 2 pi n / L enters it
+            leaves = [z for z in walk(U) if z[0] in ("sym", "attr", "call")]
+            uses_n = any(z == ("sym", "qvector") for z in leaves)
+            uses_box = any((z[0] == "attr" and z[2] in ("boxlength", "hmatrix", "boxbounds", "realbounds")) or z == F0 or
+                           (z[0] == "call" and isinstance(z[1], str) and z[1].startswith("PyMatterSim.")) for z in leaves)
+            other_syms = {z[1] for z in leaves if z[0] == "sym"} - {"qvector"}
+            if uses_n and not uses_box and not other_syms:
+                oku = False
+                wit_u = ("the direction is taken from the integer vector n, but q = 2 pi n / L per axis: in a 10 x 16 box n = (1, 1) gives n/|n| = (0.707, 0.707) "
+                         "while q/|q| = (0.848, 0.530) - L is not parallel to q and T is not orthogonal to it")
+        run.ob("R-ALG", fq, "unit-q", oku, "u = (q0..q{d-1}) / |q| row by row, both from the transform's own table", show(U)[:110], witness=None if oku else wit_u, loc=loc, sound=True)
     # transverse := F - L
     Tt = None
     okT = None
